@@ -1,7 +1,7 @@
 (* C16: proofs about the model of joint execution (Model/Joint.v). *)
-From Coq Require Import List Ascii String Bool Arith Lia PrimFloat.
+From Coq Require Import List Ascii String Bool Arith Lia PrimFloat Permutation.
 From Verif Require Import Base.Result Base.Str Base.Sexp Base.PyDict Model.Types Model.Domain Model.Exec Model.Plan
-  Model.Joint Spec.Pddl.
+  Model.Joint Spec.Pddl Spec.Joint Proofs.C04_Thread Proofs.C04_Plan Proofs.C16_Sets Proofs.C16_Commute.
 Import ListNotations.
 Open Scope string_scope.
 Open Scope list_scope.
@@ -17,3 +17,215 @@ Lemma apply_actions_nops d eps objs sch cur calls allow :
   apply_actions d eps objs sch cur calls allow =
   apply_actions d eps objs sch cur (filter (fun c => negb (is_nop c)) calls) allow.
 Proof. unfold apply_actions. rewrite filter_idem. reflexivity. Qed.
+
+Lemma foldM_app {A S} (f : S -> A -> result S) l1 : forall l2 s,
+  foldM f (l1 ++ l2) s = (do s' <- foldM f l1 s; foldM f l2 s').
+Proof.
+  induction l1 as [|x xs IH]; intros l2 s; simpl; [reflexivity|].
+  destruct (f s x); simpl; [apply IH | reflexivity].
+Qed.
+
+(* numbering from k *)
+Definition number_from {A} (k : nat) (l : list A) : list (nat * A) := combine (seq k (List.length l)) l.
+
+Lemma number_from_0 {A} (l : list A) : number l = number_from 0 l.
+Proof. reflexivity. Qed.
+
+Lemma number_from_cons {A} k (x : A) l : number_from k (x :: l) = (k, x) :: number_from (S k) l.
+Proof. reflexivity. Qed.
+
+Lemma number_from_app {A} (l1 : list A) : forall k l2,
+  number_from k (l1 ++ l2) = number_from k l1 ++ number_from (k + List.length l1) l2.
+Proof.
+  induction l1 as [|x xs IH]; intros k l2.
+  - simpl. rewrite Nat.add_0_r. reflexivity.
+  - change ((x :: xs) ++ l2) with (x :: (xs ++ l2)). rewrite !number_from_cons, IH. simpl.
+    replace (k + S (List.length xs)) with (S (k + List.length xs)) by lia. reflexivity.
+Qed.
+
+Section Joint.
+  Variable d : mdomain.
+  Variable eps : float.
+  Variable objs : option objects.
+  Variable sch : schedule.
+
+  (* the members one after the other: each is applied (as apply(.., allow_inapplicable_actions=True)) to the state
+     its predecessor returned *)
+  Definition seq_members (s : state) (ex : list (nat * acall)) : result state :=
+    foldM (fun acc ic => apply_call d eps objs true (sch (fst ic)) (snd ic) acc) ex s.
+
+  Lemma joint_member_applicable allow orig acc i c :
+    call_applicable d eps objs c orig = Ok true ->
+    joint_member d eps objs allow sch orig acc (i, c) =
+    (do s <- apply_call d eps objs true (sch i) c (ms_st acc); Ok {| ms_init := false; ms_st := s |}).
+  Proof.
+    unfold call_applicable, joint_member, apply_call, apply_action. simpl.
+    destruct (dget (d_actions d) (ac_name c)) as [a|]; [|discriminate].
+    destruct (ground_action d a (ac_args c)) as [ga|k]; simpl; [|discriminate].
+    intros H. rewrite H. simpl. reflexivity.
+  Qed.
+
+  Lemma joint_fold_applicable allow orig ex : forall k s,
+    Forall (fun c => call_applicable d eps objs c orig = Ok true) ex ->
+    foldM (joint_member d eps objs allow sch orig) (number_from k ex) {| ms_init := false; ms_st := s |} =
+    (do s' <- seq_members s (number_from k ex); Ok {| ms_init := false; ms_st := s' |}).
+  Proof.
+    unfold seq_members. induction ex as [|c r IH]; intros k s HF.
+    - reflexivity.
+    - inversion HF as [|x l Hc Hr]; subst. rewrite number_from_cons. simpl.
+      rewrite (joint_member_applicable allow orig _ k c Hc). simpl.
+      destruct (apply_call d eps objs true (sch k) c s) as [s1|e]; simpl; [|reflexivity].
+      apply IH. exact Hr.
+  Qed.
+
+  Lemma apply_call_allow_irrelevant allow ord c s :
+    call_applicable d eps objs c s = Ok true ->
+    apply_call d eps objs allow ord c s = apply_call d eps objs true ord c s.
+  Proof.
+    unfold call_applicable, apply_call, apply_action.
+    destruct (dget (d_actions d) (ac_name c)) as [a|]; [|discriminate].
+    destruct (ground_action d a (ac_args c)) as [ga|k]; simpl; [|discriminate].
+    intros H. apply apply_op_allow_irrelevant. exact H.
+  Qed.
+
+  (* all non-nop members applicable in the current state: the joint action IS the sequential application of its
+     members in list order (whatever the allow switch) *)
+  Theorem apply_actions_sequential cur calls allow :
+    Forall (fun c => call_applicable d eps objs c (ms_st cur) = Ok true) (filter (fun c => negb (is_nop c)) calls) ->
+    apply_actions d eps objs sch cur calls allow =
+    (do s' <- seq_members (ms_st cur) (number (filter (fun c => negb (is_nop c)) calls));
+     Ok {| ms_init := false; ms_st := s' |}).
+  Proof.
+    unfold apply_actions. set (ex := filter (fun c => negb (is_nop c)) calls). intros HF.
+    destruct ex as [|c [|c2 r]] eqn:E.
+    - reflexivity.
+    - inversion HF as [|x l Hc _]; subst. rewrite (apply_call_allow_irrelevant allow _ c _ Hc).
+      unfold seq_members. simpl. destruct (apply_call d eps objs true (sch 0) c (ms_st cur)); reflexivity.
+    - rewrite number_from_0. apply joint_fold_applicable. exact HF.
+  Qed.
+
+  (* some member inapplicable in the current state and inapplicable actions not allowed: ValueError.
+     [before] are the members in front of it (all applicable; applying them raised nothing) *)
+  Theorem apply_actions_refuses cur calls before c after s1 :
+    filter (fun c => negb (is_nop c)) calls = before ++ c :: after ->
+    Forall (fun c => call_applicable d eps objs c (ms_st cur) = Ok true) before ->
+    seq_members (ms_st cur) (number_from 0 before) = Ok s1 ->
+    call_applicable d eps objs c (ms_st cur) = Ok false ->
+    apply_actions d eps objs sch cur calls false = Err EValue.
+  Proof.
+    unfold apply_actions. intros E HF Hseq Hc. rewrite E.
+    assert (Hmember : forall acc i, joint_member d eps objs false sch (ms_st cur) acc (i, c) = Err EValue).
+    { intros acc i. unfold call_applicable in Hc. unfold joint_member. simpl.
+      destruct (dget (d_actions d) (ac_name c)) as [a|]; [|discriminate].
+      destruct (ground_action d a (ac_args c)) as [ga|k]; simpl in *; [|discriminate].
+      rewrite Hc. reflexivity. }
+    assert (Hfold : foldM (joint_member d eps objs false sch (ms_st cur)) (number (before ++ c :: after))
+                          {| ms_init := false; ms_st := ms_st cur |} = Err EValue).
+    { rewrite number_from_0, number_from_app, foldM_app.
+      rewrite (joint_fold_applicable false (ms_st cur) before 0 (ms_st cur) HF). rewrite Hseq. cbn [bind].
+      rewrite number_from_cons. cbn [foldM]. rewrite Hmember. reflexivity. }
+    destruct before as [|b0 br].
+    - destruct after as [|a0 ar].
+      + (* the single member *)
+        simpl. unfold call_applicable in Hc. unfold apply_call, apply_action.
+        destruct (dget (d_actions d) (ac_name c)) as [a|]; [|discriminate].
+        destruct (ground_action d a (ac_args c)) as [ga|k]; simpl in *; [|discriminate].
+        rewrite (apply_op_refuses _ _ _ _ _ _ _ Hc). reflexivity.
+      + exact Hfold.
+    - destruct br as [|b1 br']; [destruct after|]; exact Hfold.
+  Qed.
+End Joint.
+
+(* ================= the exporter: one triplet per joint action, chained ================= *)
+Section Export.
+  Variable d : mdomain.
+  Variable eps : float.
+  Variable exporter_allow : bool.
+  Variable objs : objects.
+  Variable sch : nat -> schedule.
+  Variable allow : bool.
+
+  Notation cmt := (create_multi_agent_triplet d eps exporter_allow objs).
+  Definition mk_jtriplet (i : nat) (prev : mstate) (line : string) : result jtriplet := cmt (sch i) allow prev line.
+
+  Lemma cmt_spec s prev line t :
+    cmt s allow prev line = Ok t <->
+    exists calls txts nxt,
+      parse_joint_call line = Ok calls /\ mapM (member_text d) calls = Ok txts /\
+      apply_actions d eps (Some objs) s prev (filter (fun c => negb (is_nop c)) calls) (allow || exporter_allow) = Ok nxt /\
+      t = {| jt_prev := prev; jt_ops := txts; jt_next := nxt |}.
+  Proof.
+    unfold create_multi_agent_triplet. split.
+    - intros H. destruct (parse_joint_call line) as [calls|k] eqn:E1; simpl in H; [|discriminate].
+      destruct (mapM (member_text d) calls) as [txts|k] eqn:E2; simpl in H; [|discriminate].
+      destruct (apply_actions d eps (Some objs) s prev (filter (fun c => negb (is_nop c)) calls) (allow || exporter_allow))
+        as [nxt|k] eqn:E3; simpl in H; [|discriminate].
+      inversion H; subst. exists calls, txts, nxt. repeat split; first [reflexivity | assumption].
+    - intros [calls [txts [nxt [H1 [H2 [H3 H4]]]]]]. rewrite H1. simpl. rewrite H2. simpl. rewrite H3. simpl.
+      subst t. reflexivity.
+  Qed.
+
+  Lemma mk_jtriplet_prv i s l t : mk_jtriplet i s l = Ok t -> jt_prev t = s.
+  Proof.
+    unfold mk_jtriplet. intros H. apply cmt_spec in H. destruct H as [calls [txts [nxt [_ [_ [_ Ht]]]]]].
+    subst t. reflexivity.
+  Qed.
+
+  Lemma parse_joint_plan_thread init lines :
+    parse_joint_plan d eps exporter_allow objs sch allow init lines =
+    thread _ _ _ mk_jtriplet jt_next 0 {| ms_init := true; ms_st := init |} lines.
+  Proof.
+    unfold parse_joint_plan.
+    change (jplan_step d eps exporter_allow objs sch allow) with (tstep _ _ _ mk_jtriplet jt_next).
+    apply foldM_thread0.
+  Qed.
+
+  Theorem parse_joint_plan_trajectory init lines ts :
+    parse_joint_plan d eps exporter_allow objs sch allow init lines = Ok ts ->
+    List.length ts = List.length lines /\
+    (forall t, hd_error ts = Some t -> jt_prev t = {| ms_init := true; ms_st := init |}) /\
+    (forall k t u, nth_error ts k = Some t -> nth_error ts (S k) = Some u -> jt_prev u = jt_next t) /\
+    (forall k t, nth_error ts k = Some t ->
+       exists line calls,
+         nth_error lines k = Some line /\ parse_joint_call line = Ok calls /\
+         mapM (member_text d) calls = Ok (jt_ops t) /\
+         apply_actions d eps (Some objs) (sch k) (jt_prev t) (filter (fun c => negb (is_nop c)) calls)
+                       (allow || exporter_allow) = Ok (jt_next t)).
+  Proof.
+    rewrite parse_joint_plan_thread. intros H. apply thread_threaded in H. repeat split.
+    - eapply threaded_length; eassumption.
+    - intros t Ht. eapply (threaded_first _ _ _ mk_jtriplet jt_next jt_prev mk_jtriplet_prv); eassumption.
+    - intros k t u Ht Hu. eapply (threaded_chain _ _ _ mk_jtriplet jt_next jt_prev mk_jtriplet_prv); eassumption.
+    - intros k t Ht.
+      destruct (threaded_step _ _ _ mk_jtriplet jt_next jt_prev mk_jtriplet_prv _ _ _ _ H k t Ht) as [line [Hl Hm]].
+      simpl in Hm. unfold mk_jtriplet in Hm. apply cmt_spec in Hm.
+      destruct Hm as [calls [txts [nxt [H1 [H2 [H3 H4]]]]]].
+      exists line, calls. rewrite H4 in *. simpl in *. repeat split; assumption.
+  Qed.
+
+  (* a refused joint action aborts the export: there is no 'unchanged state' fallback in the multi-agent exporter *)
+  Theorem parse_joint_plan_fails_at init l1 line l2 ts1 k :
+    parse_joint_plan d eps exporter_allow objs sch allow init l1 = Ok ts1 ->
+    cmt (sch (List.length l1)) allow (end_state _ _ jt_next {| ms_init := true; ms_st := init |} ts1) line = Err k ->
+    parse_joint_plan d eps exporter_allow objs sch allow init (l1 ++ line :: l2) = Err k.
+  Proof.
+    rewrite !parse_joint_plan_thread. intros H1 H2.
+    apply (thread_fails_at _ _ _ mk_jtriplet jt_next l1 line l2 0 _ ts1 k H1). exact H2.
+  Qed.
+End Export.
+
+Lemma export_joint_shape ts items :
+  export_joint ts = Ok items ->
+  List.length items = S (2 * List.length ts) /\
+  (forall t, hd_error ts = Some t -> hd_error items = Some (XState (jt_prev t))) /\
+  (forall k t, nth_error ts k = Some t ->
+     nth_error items (S (2 * k)) = Some (XOp (jt_ops t)) /\ nth_error items (S (S (2 * k))) = Some (XState (jt_next t))).
+Proof.
+  unfold export_joint. destruct ts as [|t0 r]; [discriminate|]. intros H. inversion H; subst. clear H.
+  destruct (interleave_shape (fun t => XOp (jt_ops t)) (fun t => XState (jt_next t)) (t0 :: r)) as [L1 L2].
+  repeat split.
+  - cbn [List.length]. f_equal. exact L1.
+  - intros t Ht. cbn [hd_error] in *. inversion Ht; subst. reflexivity.
+  - destruct (L2 k t H) as [A _]. cbn [nth_error]. exact A.
+  - destruct (L2 k t H) as [_ B]. cbn [nth_error]. exact B.
+Qed.
